@@ -82,8 +82,9 @@ def scenarios(t: str, seed: int):
         sc = {"id": i, "method": meth, "pipe": pipes[(i // 6 + i) % 4], "flow": "BOREHOLE" if (i // 3) % 2 == 0 else "SYSTEM",
               "regime": regimes[(i * 5 + i // 6) % len(regimes)], "kind": ["balanced", "heating", "cooling", "spiky", "constant"][(i * 3 + i // 5) % 5],
               "months": [12, 12, 25, 60, 12, 240][i % 6] if t == "thorough" else [12, 12, 25][i % 3], "seed": seed * 100003 + i}
-        if meth == "ROWWISE" and sc["regime"] in ("normal", "cap"):
-            sc["regime"] = "small" if i % 2 else "big-continue"      # the spacing-bisection branch takes minutes: thorough tier only (see below)
+        if meth == "ROWWISE":
+            # removal branch (1X1 feasible / borehole-count bisection) and too-big branch; the spacing-bisection branch takes minutes: thorough tier only
+            sc["regime"] = ["small", "rw-removal", "big-continue", "rw-removal", "big-stop"][(i // 6) % 5]
         out.append(sc)
     if t == "thorough":
         for i in range(4):
@@ -117,7 +118,7 @@ def build(sc):
     if reg == "cap":
         cap = rnd.choice([6, 10, 15])
     m.set_simulation_parameters(num_months=sc["months"], max_eft=35.0, min_eft=5.0, max_height=hmax, min_height=hmin, max_boreholes=cap, continue_if_design_unmet=cont)
-    amp = {"normal": u(2500, 7000), "cap": u(4000, 9000), "small": u(600, 1500), "tiny-continue": u(20, 60), "big-stop": u(1.5e5, 3e5), "big-continue": u(1.5e5, 3e5), "rw-bisect": 12400.0}[reg]
+    amp = {"normal": u(2500, 7000), "cap": u(4000, 9000), "small": u(600, 1500), "tiny-continue": u(20, 60), "big-stop": u(1.5e5, 3e5), "big-continue": u(1.5e5, 3e5), "rw-bisect": 12400.0, "rw-removal": u(3500, 9000)}[reg]
     m.set_ground_loads_from_hourly_list(profile(amp, sc["kind"], rnd))
     meth = sc["method"]
     if meth == "NEARSQUARE":
@@ -152,6 +153,23 @@ def record_run(sc):
 
     events = []
     solve = {}
+    steps = {"lists": [], "log": [], "outcome": None}      # the run in the vocabulary of Search.tla (field ids <<list, position>>)
+    idmap = {}
+    state = {"in_eval": 0}
+
+    rw = {"lower_n": None}
+
+    def fid_of(coords):
+        f = idmap.get(id(coords))
+        if f is None and sc["method"] == "ROWWISE" and rw["lower_n"] is not None:
+            n = len(coords)
+            if n == 1 and list(coords[0]) == [0, 0]:
+                return ("one",)
+            if n == rw["lower_n"]:
+                return ("s", 1024, 0)
+            if n < rw["lower_n"]:
+                return ("r", n, 0)
+        return f
 
     real_solve = ghx.solve_root
     real_size = ghx.GHE.size
@@ -176,13 +194,36 @@ def record_run(sc):
         real_size(self, method)
         events.append({"e": "Sized", "n": self.nbh, "H_mm": mm(self.bhe.b.H), "oc": solve.get("oc", "none"), "lo_uK": uK(solve.get("lo", 0.0)), "hi_uK": uK(solve.get("hi", 0.0)),
                        "nev": solve.get("n", 0)})
+        steps["log"].append({"e": "size", "f": fid_of(self.gFunction.bore_locations), "oc": solve.get("oc", "none"), "h": mm(self.bhe.b.H), "lo": uK(solve.get("lo", 0.0)),
+                             "hi": uK(solve.get("hi", 0.0))})
+
+    real_cg = ghx.BaseGHE.compute_g_functions
+
+    def cg_rec(self):
+        real_cg(self)
+        steps["log"].append({"e": "cg", "f": fid_of(self.gFunction.bore_locations)})
 
     def make_ce(cls):
         real = cls.calculate_excess
         real_ce[cls] = real
 
+        real_init = cls.initialize_ghe
+        real_ce[(cls, "init")] = real_init
+
+        def init(self, coordinates, h, field_specifier="N/A"):
+            real_init(self, coordinates, h, field_specifier=field_specifier)
+            if state["in_eval"] == 0:
+                steps["log"].append({"e": "init", "f": fid_of(coordinates), "h": mm(h)})
+
+        cls.initialize_ghe = init
+
         def ce(self, coordinates, h, field_specifier="N/A"):
-            v = real(self, coordinates, h, field_specifier=field_specifier)
+            state["in_eval"] += 1
+            try:
+                v = real(self, coordinates, h, field_specifier=field_specifier)
+            finally:
+                state["in_eval"] -= 1
+            steps["log"].append({"e": "eval", "f": fid_of(coordinates), "h": mm(h), "v": uK(v)})
             row = self.searchTracker[-1]
             g = self.ghe
             events.append({"e": "Eval", "n": len(coordinates), "H_mm": mm(h), "ex_uK": uK(v), "max_uK": uK(row[2]), "min_uK": uK(row[3]),
@@ -197,8 +238,30 @@ def record_run(sc):
     desc = dict(sc)
     ghx.solve_root = solve_rec
     ghx.GHE.size = size_rec
+    ghx.BaseGHE.compute_g_functions = cg_rec
     for cls in (sr.Bisection1D, sr.RowWiseModifiedBisectionSearch):
         make_ce(cls)
+    real_gen = (sr.field_optimization_fr, sr.field_optimization_wp_space_fr)
+
+    def gen_rec(which):
+        def gen(*a, **kw):
+            out = real_gen[which](*a, **kw)
+            spacing = a[0] if which == 0 else a[1]
+            gc = rw.get("gc")
+            if gc is not None:
+                t = (spacing - gc.min_spacing) / (gc.max_spacing - gc.min_spacing) * 1024.0
+                if abs(t - round(t)) < 1e-9:
+                    idmap[id(out[0])] = ("s", int(round(t)), 0)
+                    if int(round(t)) == 1024:
+                        rw["lower_n"] = len(out[0])
+                    rw.setdefault("counts", set()).add(len(out[0]))
+                else:
+                    rw["tail"] = True
+            return out
+        return gen
+
+    sr.field_optimization_fr = gen_rec(0)
+    sr.field_optimization_wp_space_fr = gen_rec(1)
     d = Path(tempfile.mkdtemp(prefix="corpus-", dir=BUILD))
     buf = io.StringIO()
     signal.signal(signal.SIGALRM, alarm)
@@ -208,6 +271,16 @@ def record_run(sc):
             warnings.simplefilter("ignore")
             m, info = build(sc)
             events.append({"e": "Configure", **info})
+            des = m._design
+            nested = getattr(des, "coordinates_domain_nested", None)
+            if nested is None and hasattr(des, "coordinates_domain"):
+                nested = [des.coordinates_domain]
+            for j, lst in enumerate(nested or []):
+                for i, c in enumerate(lst):
+                    idmap[id(c)] = (j + 1, i + 1)
+            steps["lists"] = [[len(c) for c in lst] for lst in (nested or [])]
+            if sc["method"] == "ROWWISE":
+                rw["gc"] = m._geometric_constraints
             try:
                 m.find_design()
                 outcome = {"e": "Outcome", "kind": "design", "type": "", "escape": "available configuration selected." in buf.getvalue()}
@@ -217,6 +290,8 @@ def record_run(sc):
                 outcome = {"e": "Outcome", "kind": "raise", "type": type(ex).__name__, "escape": False}
                 desc["exception"] = f"{type(ex).__name__}: {ex}"[:200]
             events.append(outcome)
+            steps["outcome"] = {"k": "sel" if outcome["kind"] == "design" else "raise", "type": outcome["type"],
+                                "f": fid_of(m._search.ghe.gFunction.bore_locations) if outcome["kind"] == "design" else None}
             if outcome["kind"] == "design":
                 g = m._search.ghe
                 g2 = copy.deepcopy(g)
@@ -246,11 +321,19 @@ def record_run(sc):
         signal.alarm(0)
         ghx.solve_root = real_solve
         ghx.GHE.size = real_size
-        for cls, real in real_ce.items():
-            cls.calculate_excess = real
+        ghx.BaseGHE.compute_g_functions = real_cg
+        sr.field_optimization_fr, sr.field_optimization_wp_space_fr = real_gen
+        for key, real in real_ce.items():
+            if isinstance(key, tuple):
+                key[0].initialize_ghe = real
+            else:
+                key.calculate_excess = real
         shutil.rmtree(d, ignore_errors=True)
     events.append({"e": "End"})
-    return {"desc": desc, "events": events}
+    steps["rw_counts"] = sorted(rw.get("counts", []))
+    steps["rw_tail"] = bool(rw.get("tail"))
+    usable = steps["outcome"] is not None and all(e.get("f") is not None for e in steps["log"]) and (steps["outcome"]["k"] != "sel" or steps["outcome"]["f"] is not None)
+    return {"desc": desc, "events": events, "steps": steps if usable else None}
 
 
 def corpus(t: str, seed: int):
